@@ -839,12 +839,18 @@ compFileFront(EmitInfo finfo, Stab stab, FILE *fin, int *plno)
 
 		inclFree(sll);
 		listFreeDeeply(Token)(tl,tokFree);
-		if (comsgErrorCount())		    return ab;
+		if (comsgErrorCount()) {
+			if (fintMode == FINT_LOOP) scopeBindSkipStep(stab);
+			return ab;
+		}
 	}
 
 	ab = compPhaseAbNorm (finfo, ab, false);
 	ab = compPhaseMacEx  (finfo, ab);
-	if (comsgErrorCount())		    return ab;
+	if (comsgErrorCount()) {
+		if (fintMode == FINT_LOOP) scopeBindSkipStep(stab);
+		return ab;
+	}
 
 	ab = compPhaseAbNorm (finfo, ab, true);
 	ab = compPhaseAbCheck(finfo, ab); /* creates the .ax file */
